@@ -36,8 +36,9 @@ def runCase (s : St) : String :=
       | none => "ok"
       | some msg => s!"FAIL {msg}"
     let wf := if wfbCheck b.root && wfbCheck a.root then "1" else "0"
+    let la := if laokCheck b.root then "1" else "0"
     let eb := if e.start_byte ≤ e.old_end_byte && e.old_end_byte ≤ tbJ b.root then "1" else "0"
-    s!"{s.id} corr={corr} judge={j} wfb={wf} editok={eb} nodes={st.nodes} kept={st.kept} shifted={st.shifted} touched={st.touched}"
+    s!"{s.id} corr={corr} judge={j} wfb={wf} laok={la} editok={eb} nodes={st.nodes} kept={st.kept} shifted={st.shifted} touched={st.touched}"
   | _, _, _ => s!"{s.id} corr=BADINPUT judge=BADINPUT"
 
 def step (s : St) (line : String) : IO St := do
